@@ -248,7 +248,7 @@ def _match(arg, ty, rows, default=None):
     for pat, val in rows:
         lines.append(f"  | {pat} => {val}")
     if default is not None:
-        lines.append(f"  | _ => {default}")
+        lines.append(f"  | {', '.join('_' for _ in arg.split(','))} => {default}")
     lines.append("  end.")
     return "\n".join(lines)
 
